@@ -237,7 +237,22 @@ def check(facts):
                     if y in allow and b.blocks[x]["t"]["k"] == "switch":
                         continue
                     stack.append(y)
-            if ok_args and not reached:
+            hoisted = False
+            if ok_args and reached:
+                # `let ok = start >= text.len() || text.is_char_boundary(start); assert!(ok)`: one test on a value that depends on both
+                from .flagsrc import sources as _sources
+                dom = b.dom()
+                for fb in finds:
+                    for sb in dom[fb]:
+                        ts = b.blocks[sb]["t"]
+                        if ts["k"] != "switch" or ts["discr"].get("k") not in ("copy", "move"):
+                            continue
+                        if not (ts["otherwise"] == fb or ts["otherwise"] in dom[fb]):
+                            continue
+                        src = _sources(facts, fn, b, ts["discr"])
+                        if "other:call is_char_boundary" in src and any(x in src for x in ("other:Ge", "other:Gt", "other:Le", "other:Lt")):
+                            hoisted = True
+            if ok_args and (not reached or hoisted):
                 r.ok(key, "backends::find only reachable through start >= len or is_char_boundary(start)")
             else:
                 r.fail(key, "backends::find is reachable without the char-boundary check on `start`: an offset inside a UTF-8 sequence "
